@@ -1028,6 +1028,9 @@ class Simulation:
                             f"Gradient not implemented for {n}."
                         )
 
+                # Ensure the forward electric fields are available.
+                self._ensure_efields()
+
                 # Compute back-propagating electric fields.
                 self._bcompute()
 
@@ -1191,6 +1194,15 @@ class Simulation:
 
         return self._misfit
 
+    def _ensure_efields(self):
+        """Compute the efields if they are missing (e.g., only results stored).
+
+        A simulation stored, copied, or cleaned keeping only the results has
+        the responses and the misfit, but not the electric fields any longer.
+        """
+        if any(self._dict_efield[s][f] is None for s, f in self._srcfreq):
+            self.compute()
+
     def _bcompute(self):
         """Compute bfields asynchronously for all sources and frequencies."""
         from emg3d import _multiprocessing as _mp
@@ -1309,6 +1321,7 @@ class Simulation:
 
         # Ensure misfit has been computed (and therefore the electric fields).
         _ = self.misfit
+        self._ensure_efields()
 
         # Apply derivative-chain of property-map (copy to not overwrite).
         if vector.ndim == 3:
